@@ -232,3 +232,135 @@ Proof.
       * specialize (Push (mk_atom (u_cat u) u)). destruct (requested vdb r); exact Push.
 Qed.
 End Stage.
+
+(* ---- from the relational statements to the boolean specification *)
+Section Bool.
+Variable vdb : list pkg.
+Variable bdeps : bool.
+
+Lemma forallb_false_in {X} (f : X -> bool) l x : In x l -> f x = false -> forallb f l = false.
+Proof.
+  intros Hin Hf. destruct (forallb f l) eqn:E; auto. rewrite forallb_forall in E. rewrite E in Hf; auto.
+Qed.
+
+Lemma reach_rq_ext rq rq' inS i : (forall a, In a rq' <-> In a rq) ->
+  ReachIn vdb bdeps rq' inS i -> ReachIn vdb bdeps rq inS i.
+Proof.
+  intros H. induction 1.
+  - eapply RI_root; eauto. now apply H.
+  - eapply RI_step; eauto.
+Qed.
+
+Lemma validsel_valid rq rq' X : (forall a, In a rq' <-> In a rq) ->
+  ValidSel vdb bdeps rq' X -> valid vdb bdeps rq X = true.
+Proof.
+  intros HE (V1 & V2 & V3 & V4 & V5). unfold valid. rewrite !andb_true_iff. split; [split; [split|]|].
+  - unfold v_roots. apply forallb_forall. intros a Ha. destruct (a_blk a) eqn:Eb; auto. cbn.
+    apply V1; auto. now apply HE.
+  - unfold v_closed. apply forallb_forall. intros i Hi. destruct (V2 i Hi) as (p & Hp & F1 & F2).
+    rewrite Hp, F1, F2. reflexivity.
+  - unfold v_justified. apply forallb_forall. intros i Hi. apply memN_in. unfold reach.
+    apply closure_complete. eapply reach_rq_ext; eauto.
+  - unfold v_unblocked. apply andb_true_iff. split.
+    + apply forallb_forall. intros b Hb. destruct (a_blk b) eqn:Eb; auto. cbn.
+      rewrite V4; auto. now apply HE.
+    + apply forallb_forall. intros i Hi. destruct (V2 i Hi) as (p & Hp & _). rewrite Hp.
+      apply forallb_forall. intros b Hb. destruct (a_blk b) eqn:Eb; auto. cbn. erewrite V5; eauto.
+Qed.
+
+Lemma reason_invalid rq rq' M : (forall a, In a rq' <-> In a rq) ->
+  Reason vdb bdeps rq' M -> valid vdb bdeps rq M = false.
+Proof.
+  intros HE [R|[R|[R|R]]]; unfold valid.
+  - destruct R as (a & Ha & Hb & Hs).
+    assert (v_roots vdb rq M = false) as ->; [|reflexivity].
+    unfold v_roots. eapply forallb_false_in; [apply HE; exact Ha|]. now rewrite Hb, Hs.
+  - destruct R as (i & p & Hi & Hp & Hr).
+    assert (v_closed vdb bdeps M = false) as ->; [|now rewrite andb_false_r].
+    unfold v_closed. eapply forallb_false_in; [exact Hi|]. rewrite Hp.
+    destruct Hr as [Hr|(d & Hd & Hs)]; [now rewrite Hr|].
+    rewrite (forallb_false_in _ _ d Hd Hs). apply andb_false_r.
+  - destruct R as (b & Hb & Hblk & Hs).
+    assert (v_unblocked vdb bdeps rq M = false) as ->; [|now rewrite andb_false_r].
+    unfold v_unblocked. rewrite (forallb_false_in _ rq b); auto; [apply HE; exact Hb|]. now rewrite Hblk, Hs.
+  - destruct R as (i & p & b & Hi & Hp & Hb & Hblk & Hs).
+    assert (v_unblocked vdb bdeps rq M = false) as ->; [|now rewrite andb_false_r].
+    unfold v_unblocked. apply andb_false_iff. right. eapply forallb_false_in; [exact Hi|]. rewrite Hp.
+    eapply forallb_false_in; [exact Hb|]. now rewrite Hblk, Hs.
+Qed.
+
+(* the printed listing maps back to the selected packages *)
+Hypothesis strs_nodup : forall i j p q, pkg_at vdb i = Some p -> pkg_at vdb j = Some q ->
+  pkg_str p = pkg_str q -> i = j.
+
+Lemma id_of_str i p : pkg_at vdb i = Some p -> id_of vdb (pkg_str p) = Some i.
+Proof.
+  intros Hp. unfold id_of.
+  destruct (find _ (ids vdb)) as [j|] eqn:E.
+  - apply find_some in E as [_ E]. destruct (pkg_at vdb j) as [q|] eqn:Hq; [|discriminate].
+    apply beq_true in E. f_equal. eapply strs_nodup; eauto.
+  - exfalso. assert (Hi : In i (ids vdb)) by (apply ids_in; now exists p).
+    pose proof (find_none _ _ E i Hi) as C. cbn in C. rewrite Hp, beq_refl in C. discriminate.
+Qed.
+Lemma ids_of_listing X : (forall i, In i X -> valid_id vdb i) -> ids_of vdb (listing vdb X) = Some X.
+Proof.
+  induction X as [|i r IH]; intros HV; [reflexivity|].
+  destruct (HV i (or_introl eq_refl)) as [p Hp].
+  change (listing vdb (i :: r)) with ((match pkg_at vdb i with Some p0 => pkg_str p0 | None => [] end) :: listing vdb r).
+  rewrite Hp. cbn [ids_of]. rewrite (id_of_str i p Hp).
+  rewrite IH; auto. intros j Hj. apply HV. now right.
+Qed.
+End Bool.
+
+(* ---- the stage set of a case *)
+Section StageSet.
+Variable vdb : list pkg.
+Variable bdeps : bool.
+Variable enum : list N.
+Hypothesis keys_nodup : forall i j p q, pkg_at vdb i = Some p -> pkg_at vdb j = Some q ->
+  p_pn p = p_pn q -> p_slot p = p_slot q -> i = j.
+Hypothesis strs_nodup : forall i j p q, pkg_at vdb i = Some p -> pkg_at vdb j = Some q ->
+  pkg_str p = pkg_str q -> i = j.
+Hypothesis use_eq : forall i p, pkg_at vdb i = Some p -> forall f, use_on p f = spec_use p f.
+Hypothesis no_fpanic : forall i p, pkg_at vdb i = Some p ->
+  forallb (fun f => match f with FPanic => false | _ => true end) (rel_files bdeps p) = true.
+Hypothesis names_ok : forall i p, pkg_at vdb i = Some p ->
+  p_pn p = p_cat p ++ c_sl :: base_name p /\ nosep c_sl (p_cat p) /\ nosep c_sl (base_name p).
+Hypothesis enum_perm : is_perm_ids (length vdb) enum = true.
+
+(* no compound alternative in the packages that can be selected *)
+Definition no_compound (rq : list atomr) : Prop :=
+  forall j p d, In j (maxclosure vdb bdeps rq) -> pkg_at vdb j = Some p -> In d (top_deps bdeps p) ->
+    compound_alt (spec_use p) d = false.
+
+Theorem stage_holds us :
+  (forall rq, requested vdb us = Some rq -> no_compound rq) ->
+  spec_stage vdb bdeps (requested vdb us) (stage_set vdb enum bdeps us) = true.
+Proof.
+  intros HNC. destruct (installed_ok vdb keys_nodup enum enum_perm) as (I1 & I2 & I3).
+  unfold stage_set, resolve_user.
+  pose proof (classify_spec vdb names_ok (installed vdb enum) I1 I2 I3 us [] []) as CS.
+  destruct (classify (installed vdb enum) us [] []) as [[w b]| | |]; try contradiction.
+  - destruct CS as (rq & Erq & Hrq). rewrite Erq.
+    assert (HE : forall a, In a (b ++ w) <-> In a rq) by (intros a; rewrite Hrq; cbn; tauto).
+    specialize (HNC rq Erq).
+    pose proof (top_spec vdb bdeps keys_nodup use_eq no_fpanic (installed vdb enum) I1 I3 (b ++ w)
+                  (maxclosure vdb bdeps rq)) as TS.
+    assert (MR : forall a, In a (b ++ w) -> a_blk a = false -> incl (amatch vdb a) (maxclosure vdb bdeps rq)).
+    { intros a Ha. apply maxclosure_root. now apply HE. }
+    specialize (TS MR (maxclosure_step vdb bdeps rq) HNC (S (length vdb)) (Nat.le_succ_diag_r _)).
+    unfold top_run in TS.
+    destruct (resolve_dep (installed vdb enum) (visit_pkg vdb (installed vdb enum) bdeps (S (length vdb)))
+                (fun _ => false) false (DGrp GAll (map DAtom (b ++ w))) (g0, [])) as [[g rs]| | |]; try contradiction.
+    + destruct TS as [Ig HV]. cbn [spec_stage].
+      set (X := sorted_atoms (g_res g)).
+      assert (HX : forall i, In i X <-> In i (g_added g)).
+      { intros i. unfold X. destruct (inv_res _ _ _ _ Ig) as [K1 K2]. rewrite (sorted_atoms_in vdb _ i K1). apply K2. }
+      rewrite (ids_of_listing vdb strs_nodup X).
+      * rewrite (validsel_valid vdb bdeps rq (b ++ w) X HE (HV X HX)). cbn.
+        apply sorted_by_spec. apply sorted_atoms_sorted. apply (inv_res _ _ _ _ Ig).
+      * intros i Hi. apply HX in Hi. eapply inv_valid; eauto.
+    + cbn [spec_stage]. apply negb_true_iff. eapply reason_invalid; eauto.
+  - now rewrite CS.
+Qed.
+End StageSet.
